@@ -1,4 +1,180 @@
-//! Oracle self-tests (exit 2 on failure: a broken oracle must never produce a verdict).
+//! Oracle self-tests.  A broken oracle must never produce a verdict: any failure here ends the
+//! process with exit code 2 before a property is judged.
+
+use crate::exact::{AffQ, Q};
+use crate::gen_tree::*;
+use crate::lp::{self, LpResult, Opt, Row};
+use crate::pwl::{equiv, EquivMode, Ref};
+use proptest::strategy::{Strategy, ValueTree};
+use proptest::test_runner::{Config, RngAlgorithm, TestRng, TestRunner};
+
+fn q(v: &[i64]) -> Vec<Q> {
+    v.iter().map(|x| Q::int(*x)).collect()
+}
+
+struct Lcg(u64);
+impl Lcg {
+    fn next(&mut self) -> u64 {
+        self.0 = self.0.wrapping_mul(6364136223846793005).wrapping_add(1442695040888963407);
+        self.0 >> 33
+    }
+    fn small(&mut self) -> i64 {
+        (self.next() % 9) as i64 - 4
+    }
+}
+
+fn lp_selftest() -> Result<(), String> {
+    // hand-checked systems (the last three mirror the repository's scipy-checked tests)
+    let sq = vec![Row::le(q(&[1, 0]), Q::int(1)), Row::le(q(&[-1, 0]), Q::int(0)), Row::le(q(&[0, 1]), Q::int(1)), Row::le(q(&[0, -1]), Q::int(0))];
+    match lp::minimize(&sq, 2, &q(&[-1, -1])) {
+        Opt::Val(v, _) if v == Q::int(-2) => {}
+        o => return Err(format!("unit square optimum wrong: {o:?}")),
+    }
+    if lp::full_dim(&sq, 2).is_none() || !lp::has_ball(&sq, 2, &Q::frac(1, 4)) || lp::has_ball(&sq, 2, &Q::frac(3, 4)) {
+        return Err("unit square ball tests wrong".into());
+    }
+    let seg = vec![Row::le(q(&[1, 0]), Q::int(1)), Row::le(q(&[-1, 0]), Q::int(-1))];
+    if lp::feasible_closed(&seg, 2).is_none() || lp::full_dim(&seg, 2).is_some() {
+        return Err("lower-dimensional set misjudged".into());
+    }
+    let empty = vec![Row::le(q(&[1]), Q::int(0)), Row::le(q(&[-1]), Q::int(-1))];
+    if lp::feasible_closed(&empty, 1).is_some() {
+        return Err("empty set judged feasible".into());
+    }
+    if !matches!(lp::minimize(&[Row::le(q(&[1, 0]), Q::int(1))], 2, &q(&[0, 1])), Opt::Unbounded) {
+        return Err("unbounded LP misjudged".into());
+    }
+    match lp::minimize(&[Row::le(q(&[1, 0]), Q::int(1))], 2, &q(&[-1, 0])) {
+        Opt::Val(v, _) if v == Q::int(-1) => {}
+        o => return Err(format!("finite optimum on an unbounded face misjudged: {o:?}")),
+    }
+    // strict rows
+    if lp::nonempty_exact(&[Row::le(q(&[1]), Q::int(0)), Row::lt(q(&[-1]), Q::int(0))], 1).is_some() {
+        return Err("x <= 0 and x > 0 judged non-empty".into());
+    }
+    if lp::nonempty_exact(&[Row::lt(q(&[0]), Q::int(0))], 1).is_some() || lp::nonempty_exact(&[Row::le(q(&[0]), Q::int(0))], 1).is_none() {
+        return Err("zero rows misjudged".into());
+    }
+    // 300 pseudo-random systems: certificates are checked inside solve(); cross-check derived facts
+    let mut g = Lcg(12345);
+    for _ in 0..300 {
+        let n = 1 + (g.next() % 3) as usize;
+        let m = (g.next() % 6) as usize;
+        let a: Vec<Vec<Q>> = (0..m).map(|_| (0..n).map(|_| Q::int(g.small())).collect()).collect();
+        let b: Vec<Q> = (0..m).map(|_| Q::int(g.small())).collect();
+        let c: Vec<Q> = (0..n).map(|_| Q::int(g.small())).collect();
+        let r1 = lp::solve(&a, &b, &c);
+        let neg: Vec<Q> = c.iter().map(|x| -x).collect();
+        let rows: Vec<Row> = a.iter().zip(&b).map(|(r, bb)| Row::le(r.clone(), bb.clone())).collect();
+        let feas = lp::feasible_closed(&rows, n).is_some();
+        if feas == matches!(r1, LpResult::Infeasible { .. }) {
+            return Err("feasibility and optimisation disagree".into());
+        }
+        if lp::full_dim(&rows, n).is_some() && !feas {
+            return Err("full-dimensional but infeasible".into());
+        }
+        if let (Opt::Val(v1, _), Opt::Val(v2, _)) = (lp::minimize(&rows, n, &c), lp::maximize(&rows, n, &neg)) {
+            if v1 != -v2 {
+                return Err("min c != -max -c".into());
+            }
+        }
+    }
+    Ok(())
+}
+
+fn equiv_selftest() -> Result<(), String> {
+    // trees from the generator with a fixed seed: spec -> library tree -> cell model must be
+    // equivalent to the spec's own reference; a mutated reference must be rejected
+    let cfg = Config { failure_persistence: None, ..Config::default() };
+    let mut runner = TestRunner::new_with_rng(cfg, TestRng::from_seed(RngAlgorithm::ChaCha, &[7u8; 32]));
+    let mut rejected = 0;
+    let mut accepted = 0;
+    for (k, depth) in [(2usize, 2u32), (2, 3), (4, 2)].iter().cycle().take(60) {
+        let p = TreeParams { k: *k, in_dim: 2, out_dim: 2, max_depth: *depth, present_pct: 85, pool_pct: 40 };
+        let spec = tree_spec(p).new_tree(&mut runner).map_err(|e| format!("generator failed: {e}"))?.current();
+        let rn = spec.resolve(&[]);
+        let reference = rn.to_ref();
+        let model = if *k == 2 { Ref::from_afftree(&rn.build::<2>(&spec.order, &spec.junk)) } else { Ref::from_afftree(&rn.build::<4>(&spec.order, &spec.junk)) };
+        if let Err(m) = equiv(&model, &reference, 2, &EquivMode::exact()) {
+            return Err(format!("cell model of a built tree differs from its specification at {:?}", m.point));
+        }
+        if equiv(&reference, &model, 2, &EquivMode::exact()).is_err() {
+            return Err("equiv is not symmetric on equal functions".into());
+        }
+        accepted += 1;
+        // mutate: add 1 to the bias of every defined leaf -> must be rejected iff some defined
+        // leaf has a full-dimensional region
+        let mutated = reference.map_leaves(&|l: &AffQ| {
+            let mut l2 = l.clone();
+            l2.bias[0] = &l2.bias[0] + &Q::one();
+            Ref::leaf(l2)
+        });
+        let has_defined_cell = reference.cells().iter().any(|c| c.val.is_some() && lp::full_dim(&c.rows, 2).is_some());
+        let r = equiv(&model, &mutated, 2, &EquivMode::exact());
+        if has_defined_cell {
+            if r.is_ok() {
+                return Err("equiv accepted a reference whose every leaf was shifted".into());
+            }
+            rejected += 1;
+        }
+        // undefined vs defined must be rejected as well
+        let undefined = reference.map_leaves(&|_| Ref::undef());
+        if has_defined_cell && equiv(&model, &undefined, 2, &EquivMode::exact()).is_ok() {
+            return Err("equiv accepted 'undefined everywhere' for a function with a defined cell".into());
+        }
+    }
+    if rejected < 20 || accepted < 60 {
+        return Err(format!("self-test too weak: {accepted} accepted, {rejected} rejected"));
+    }
+    Ok(())
+}
+
+fn exact_selftest() -> Result<(), String> {
+    for x in [0.0, -0.0, 1.0, -1.5, 0.1, 1e300, 1e-300, 123456.789, -2.5e-7, f64::MIN_POSITIVE, 1.0 / 6.0] {
+        if Q::from_f64(x).to_f64() != x {
+            return Err(format!("f64 -> Q -> f64 round trip failed for {x}"));
+        }
+    }
+    let third = Q::frac(1, 3);
+    if &(&third + &third) + &third != Q::one() {
+        return Err("1/3 + 1/3 + 1/3 != 1".into());
+    }
+    let big = Q::from_f64(1e200);
+    if &(&big * &big) / &big != big {
+        return Err("big rational arithmetic wrong".into());
+    }
+    if Q::from_f64(0.1).is_exact_f64() != true || Q::frac(1, 3).is_exact_f64() {
+        return Err("dyadic test wrong".into());
+    }
+    Ok(())
+}
+
+pub fn run_quiet() -> Result<(), String> {
+    exact_selftest()?;
+    lp_selftest()?;
+    Ok(())
+}
+
 pub fn run() -> i32 {
-    0
+    crate::runner::install_quiet_panic_hook();
+    let r = std::panic::catch_unwind(|| -> Result<(), String> {
+        exact_selftest()?;
+        lp_selftest()?;
+        equiv_selftest()?;
+        Ok(())
+    });
+    match r {
+        Ok(Ok(())) => {
+            println!("selftest ok");
+            0
+        }
+        Ok(Err(e)) => {
+            eprintln!("SELFTEST-FAILED: {e}");
+            2
+        }
+        Err(_) => {
+            eprintln!("SELFTEST-FAILED: panic");
+            2
+        }
+    }
 }
